@@ -105,6 +105,23 @@ inductive PStmt
   | opaque
 deriving DecidableEq, Repr, Inhabited
 
+/-- one effect of `setRecordType()` / of a `New<T>()` constructor -/
+inductive SetAct
+  | lit (f : String) (b : Bytes)
+  /-- `if rec.f.IsZero() { rec.f = time.Now() }` -/
+  | nowIfZero (f : String)
+  /-- call of `setRecordType()` (inside a constructor) -/
+  | setType
+  | opaque
+deriving DecidableEq, Repr, Inhabited
+
+/-- apply `setRecordType()`; `now` is the model's clock (date part) -/
+def applySetType (now : Date) : List SetAct → Vals → Vals
+  | [], v => v
+  | .lit f b :: r, v => applySetType now r (v.setS f b)
+  | .nowIfZero f :: r, v => applySetType now r (if (v.d f).isZero then v.setD f now else v)
+  | _ :: r, v => applySetType now r v
+
 inductive ParseOut
   | done (v : Vals)
   | panic
@@ -133,27 +150,28 @@ def Vals.assign (v : Vals) (dst : String) (k : PKind) (x : Bytes) : Vals :=
   | .bytes => v.setS dst x
 
 /-- interpret the statements of a `Parse()` body on `record` -/
-def parseStmts (dec : Bytes → Bytes) (tag : Bytes) (record : Bytes) : List PStmt → Env → Vals → ParseOut
+def parseStmts (dec : Bytes → Bytes) (now : Date) (sty : List SetAct) (record : Bytes) :
+    List PStmt → Env → Vals → ParseOut
   | [], _, v => .done v
   | st :: rest, e, v =>
     match st with
     | .guardRunes ne n =>
       if (if ne then runeCount record ≠ n else runeCount record < n) then .done v
-      else parseStmts dec tag record rest e v
+      else parseStmts dec now sty record rest e v
     | .guardBytes n =>
-      if record.length < n then .done v else parseStmts dec tag record rest e v
+      if record.length < n then .done v else parseStmts dec now sty record rest e v
     | .guardVar bytes var le0 off =>
       let x := e.get var
       let cnt : Int := if bytes then record.length else runeCount record
       if (if le0 then x ≤ 0 else x < 0) ∨ cnt < off.eval e then .done v
-      else parseStmts dec tag record rest e v
-    | .bind var field => parseStmts dec tag record rest ((var, parseNum (v.s field)) :: e) v
+      else parseStmts dec now sty record rest e v
+    | .bind var field => parseStmts dec now sty record rest ((var, parseNum (v.s field)) :: e) v
     | .assign dst lo hi k decode =>
       match slice? record (lo.eval e) (hi.eval e) with
       | none => .panic
-      | some x => parseStmts dec tag record rest e (v.assign dst k (if decode then dec x else x))
-    | .lit dst b => parseStmts dec tag record rest e (v.setS dst b)
-    | .setType => parseStmts dec tag record rest e (v.setS "recordType" tag)
+      | some x => parseStmts dec now sty record rest e (v.assign dst k (if decode then dec x else x))
+    | .lit dst b => parseStmts dec now sty record rest e (v.setS dst b)
+    | .setType => parseStmts dec now sty record rest e (applySetType now sty v)
     | .opaque => .panic
 
 structure RecLayout where
@@ -161,10 +179,26 @@ structure RecLayout where
   tag : Bytes
   write : List WField
   parse : List PStmt
+  /-- body of `setRecordType()` -/
+  setType : List SetAct := []
+  /-- body of `New<T>()` -/
+  ctor : List SetAct := []
 deriving Inhabited
 
-def RecLayout.parseRec (L : RecLayout) (dec : Bytes → Bytes) (record : Bytes) (v0 : Vals) : ParseOut :=
-  parseStmts dec L.tag record L.parse [] v0
+def RecLayout.parseRec (L : RecLayout) (dec : Bytes → Bytes) (now : Date) (record : Bytes) (v0 : Vals) : ParseOut :=
+  parseStmts dec now L.setType record L.parse [] v0
+
+/-- the record `New<T>()` returns -/
+def RecLayout.new (L : RecLayout) (now : Date) : Vals :=
+  L.ctor.foldl (fun v a =>
+    match a with
+    | .setType => applySetType now L.setType v
+    | .lit f b => v.setS f b
+    | .nowIfZero f => if (v.d f).isZero then v.setD f now else v
+    | .opaque => v) {}
+
+/-- a zero-valued struct on which only `setRecordType()` was called -/
+def RecLayout.typed (L : RecLayout) (now : Date) : Vals := applySetType now L.setType {}
 
 /-- total fixed width of a write table (variable sections count 0) -/
 def fixedWidth : List WField → Nat
